@@ -53,12 +53,14 @@ static uint64_t wmask(int f) { return fam_width[f] == 64 ? ~0ull : ((1ull << fam
 
 static uint64_t call_impl(const struct impl *im, uint64_t seed, uint8_t *buf, size_t len, uint8_t *dst)
 {
+	/* every kernel call is made with the caller-saved vector/mask registers, rax, r10, r11 and the flags poisoned (engine/pcall.S) */
+	v_pcall_mode = 1 + (int)(len & 1);
 	switch (im->fam) {
-	case F_T10: return ((k16)im->fn)((uint16_t)seed, buf, len);
-	case F_T10C: return ((k16c)im->fn)((uint16_t)seed, dst, buf, len);
-	case F_IEEE: case F_GZIP: case F_ADLER: return ((k32)im->fn)((uint32_t)seed, buf, len);
-	case F_ISCSI: return ((k32i)im->fn)(buf, (int)len, (unsigned)seed);
-	default: return ((k64)im->fn)(seed, buf, len);
+	case F_T10: return (uint16_t)PCALL(im->fn, (uint16_t)seed, buf, len);
+	case F_T10C: return (uint16_t)PCALL(im->fn, (uint16_t)seed, dst, buf, len);
+	case F_IEEE: case F_GZIP: case F_ADLER: return (uint32_t)PCALL(im->fn, (uint32_t)seed, buf, len);
+	case F_ISCSI: return (uint32_t)PCALL(im->fn, buf, (int)len, (unsigned)seed);
+	default: return PCALL(im->fn, seed, buf, len);
 	}
 }
 static uint64_t ref_fam(int f, uint64_t seed, const uint8_t *buf, size_t len)
